@@ -1,5 +1,5 @@
 (* C01 - MPQ build -> open round trip returns every file bit-identically. *)
-From WR Require Import Lib.Bits Mpq.Crypt Mpq.Archive Proofs.HashTable_proofs Proofs.FileLayout_proofs.
+From WR Require Import Lib.Bits Mpq.Crypt Mpq.Archive Proofs.HashTable_proofs Proofs.FileLayout_proofs Proofs.Sectors_proofs Proofs.Sectors_example.
 Open Scope N_scope.
 
 (* hash table: every successful insertion keeps the invariant ... *)
@@ -45,3 +45,46 @@ Theorem C01_single_unit_roundtrip :
     read_file decompress a name = ROk (f_data f).
 Proof. exact single_unit_roundtrip. Qed.
 Print Assumptions C01_single_unit_roundtrip.
+
+(* files longer than one sector of which no sector shrank: a plain run of (separately encrypted) sectors *)
+Theorem C01_stored_sectors_roundtrip :
+  forall (compress : N -> list N -> option (list N)) (decompress : N -> list N -> N -> option (list N))
+         (name : list N) (a : archive) (ssz : N) (crc : bool) (f : file_spec) (pos : N) (bytes : list N) (csize flags : N),
+    f_name f = name -> f_enc f < 3 -> wf_bytes (f_data f) ->
+    0 < ssz -> ssz < lenN (f_data f) -> lenN (f_data f) < M32 ->
+    write_file compress ssz crc f pos = Some (bytes, csize, flags) ->
+    has_flag flags fl_compress = false ->
+    carries name a pos bytes csize (lenN (f_data f)) flags ssz ->
+    read_file decompress a name = ROk (f_data f).
+Proof. exact stored_sectors_roundtrip. Qed.
+Print Assumptions C01_stored_sectors_roundtrip.
+
+(* files written as separately compressed sectors behind an offset table, with or without the
+   checksum table, plain or encrypted, for every length and sector size *)
+Theorem C01_compressed_sectors_roundtrip :
+  forall (compress : N -> list N -> option (list N)) (decompress : N -> list N -> N -> option (list N))
+         (name : list N) (a : archive) (ssz : N) (crc : bool) (f : file_spec) (pos : N) (bytes : list N) (csize flags : N),
+    f_name f = name -> f_enc f < 3 -> wf_bytes (f_data f) ->
+    0 < ssz -> ssz < lenN (f_data f) -> lenN (f_data f) < M32 ->
+    Forall (unit_contract compress decompress (f_comp f)) (sectors ssz (f_data f)) ->
+    write_file compress ssz crc f pos = Some (bytes, csize, flags) ->
+    has_flag flags fl_compress = true ->
+    lenN bytes < M32 ->
+    carries name a pos bytes csize (lenN (f_data f)) flags ssz ->
+    read_file decompress a name = ROk (f_data f).
+Proof. exact compressed_sectors_roundtrip. Qed.
+Print Assumptions C01_compressed_sectors_roundtrip.
+
+(* every file the builder lays out - one unit, a plain run of sectors, or compressed sectors - reads back whole *)
+Theorem C01_file_roundtrip :
+  forall (compress : N -> list N -> option (list N)) (decompress : N -> list N -> N -> option (list N))
+         (name : list N) (a : archive) (ssz : N) (crc : bool) (f : file_spec) (pos : N) (bytes : list N) (csize flags : N),
+    f_name f = name -> f_enc f < 3 -> wf_bytes (f_data f) ->
+    0 < ssz -> lenN (f_data f) < M32 -> lenN bytes < M32 ->
+    (if lenN (f_data f) <=? ssz then unit_contract compress decompress (f_comp f) (f_data f)
+     else Forall (unit_contract compress decompress (f_comp f)) (sectors ssz (f_data f))) ->
+    write_file compress ssz crc f pos = Some (bytes, csize, flags) ->
+    carries name a pos bytes csize (lenN (f_data f)) flags ssz ->
+    read_file decompress a name = ROk (f_data f).
+Proof. exact file_roundtrip. Qed.
+Print Assumptions C01_file_roundtrip.
